@@ -55,11 +55,16 @@ class SerialQueueImpl {
   
   /// Thread function to execute operations.
   void run() {
+    bool shuttingDown = false;
     while (true) {
       // Get the next operation from the queue.
       std::function<void(void)> fn;
       {
         std::unique_lock<std::mutex> lock(operationsMutex);
+
+        // Once shut down was requested, stop as soon as the queue is drained.
+        if (shuttingDown && operations.empty())
+          break;
 
         // While the queue is empty, wait for an item.
         while (operations.empty()) {
@@ -70,9 +75,12 @@ class SerialQueueImpl {
         operations.pop_front();
       }
 
-      // If we got a nil function, the queue is shutting down.
-      if (!fn)
-        break;
+      // If we got a nil function, the queue is shutting down. Operations which
+      // were added by running operations in the meantime are still executed.
+      if (!fn) {
+        shuttingDown = true;
+        continue;
+      }
       
       // Execute the operation.
       fn();
